@@ -35,6 +35,8 @@ type T2JCase struct {
 
 type descHolder struct {
 	out      *Out
+	quiet    bool                   // do not log the Desc event, keep it in lastEv (the caller logs it)
+	lastEv   map[string]interface{}
 	lastDesc string
 	root     *thrift.TypeDescriptor
 	cur      DescJ
@@ -67,7 +69,10 @@ func (h *descHolder) setDesc(d DescJ, popts thrift.Options) {
 	dd := DescJ{Structs: map[string][]FldJ{}}
 	dd.From = dumpTy(h.root, dd.Structs)
 	dd.To = dd.From
-	h.out.Emit(map[string]interface{}{"ev": "Desc", "desc": d, "ddump": dd, "idl": idl})
+	h.lastEv = map[string]interface{}{"ev": "Desc", "desc": d, "ddump": dd, "idl": idl}
+	if !h.quiet {
+		h.out.Emit(h.lastEv)
+	}
 }
 
 type c03 struct {
